@@ -32,7 +32,7 @@ package actionlint
 
 // string fields and slices that hold lower-cased names
 //@ folded WorkflowCallEventInput.ID
-//@ folded_elems jobNode.needs
+//@ folded_elems jobNode.needs also C18
 
 //@ func (*RuleJobNeeds).VisitJobPre
 //@   loop "range n.Needs":
